@@ -27,6 +27,7 @@ K_EMPTY = "C17-standardize-collapses-to-empty"
 K_SYMDD_FN = "C17-standardize-dotdot-after-symlink"        # Filename level: not fixed (lexical by design)
 K_SYMDD_OPT = "C17-include-dir-dotdot-after-symlink"       # interrogate -I/-S/-srcdir: c17-fix-4
 K_CYCLE = "C17-unguarded-include-cycle"                    # c17-fix-5
+K_SYMDD_OUT = "C17-output-name-dotdot-after-symlink"       # interrogate -oc/-od/-oh: c17-fix-6
 
 
 def h32(*a):
@@ -340,22 +341,23 @@ B_BODY = {"pragma": "#pragma once\n" + B_CLASS + B_DECLS,
           # an unprotected file is read twice: only declarations that may be repeated
           "none": B_DECLS}
 INC_TEXT = {"incPlain": "b.h", "incDot": "./b.h", "incDotDot": "sub/../b.h",
-            "Iplain": "b.h", "Isymlink": "b.h", "Idotdot": "b.h"}
+            "Iplain": "b.h", "Isymlink": "b.h", "Idotdot": "b.h", "Splain": "b.h", "Sangle": "b.h"}
 
 
 def own_case(rec, root):
     """root/hdr/a.h includes B; B lives next to A (inc* reaches) or in root/lib (reached through -I);
     root/lnkB -> B's directory, root/lnkI -> root/lib, root/work = a working directory without headers.
     Returns (cwd, argv)."""
-    via_i = rec["reach"].startswith("I")
-    bdir = "lib" if via_i else "hdr"
-    for d in ("hdr/sub", "lib/sub", "work"):
+    via_i = rec["reach"][0] in "IS"                      # B is not next to A: reached through an option directory
+    bdir = "lib" if rec["reach"].startswith("I") else "sys" if rec["reach"].startswith("S") else "hdr"
+    for d in ("hdr/sub", "lib/sub", "sys/sub", "work"):
         os.makedirs(os.path.join(root, d), exist_ok=True)
     os.symlink(bdir, os.path.join(root, "lnkB"))
     os.symlink("lib", os.path.join(root, "lnkI"))
     open(os.path.join(root, bdir, "b.h"), "w").write(B_BODY[rec["guard"]])
+    inc = "<b.h>" if rec["reach"] == "Sangle" else '"%s"' % INC_TEXT[rec["reach"]]
     open(os.path.join(root, "hdr", "a.h"), "w").write(
-        '#include "%s"\n__begin_publish\nextern int own_a;\n__end_publish\n' % INC_TEXT[rec["reach"]])
+        '#include %s\n__begin_publish\nextern int own_a;\n__end_publish\n' % inc)
     cwd = os.path.join(root, bdir if rec["cwdHas"] else "work")
     brel = "." if rec["cwdHas"] else "../" + bdir
     a = "a.h" if (rec["cwdHas"] and not via_i) else "../hdr/a.h"
@@ -364,7 +366,8 @@ def own_case(rec, root):
          "dots": "./" + brel + "/sub/../b.h"}[rec["cmdSpell"]]
     argv = ["-module", "m", "-library", "l", "-od", os.path.join(root, "o.in")]
     if via_i:
-        argv += ["-I", {"Iplain": "../lib", "Isymlink": "../lnkI", "Idotdot": "../hdr/../lib"}[rec["reach"]]]
+        argv += {"Iplain": ["-I", "../lib"], "Isymlink": ["-I", "../lnkI"], "Idotdot": ["-I", "../hdr/../lib"],
+                 "Splain": ["-S", "../sys"], "Sangle": ["-S../sys"]}[rec["reach"]]
     argv += [a, b] if rec["order"] == "AB" else [b, a]
     return cwd, argv
 
@@ -600,6 +603,40 @@ def replay_cycles(ctx):
 
 
 # ---------------------------------------------------------------------------------------------
+# output names: interrogate normalises the -oc / -od / -oh names too; the file written must be the one the
+# operating system's reading of the name denotes
+def replay_output_names(ctx):
+    base = os.path.realpath(os.path.join(ctx.tmp, "outnames"))
+    items = []
+    for i, (spell, cls) in enumerate([("link/../%s", [K_SYMDD_OUT]), ("./sub/../%s", []), ("link/%s", []),
+                                      ("../real/deep/../%s", [])]):
+        for opt, fname in (("-od", "o.in"), ("-oc", "o.cxx"), ("-oh", "o.txt")):
+            items.append((i, spell, cls, opt, fname))
+
+    def one(it):
+        i, spell, cls, opt, fname = it
+        root = os.path.join(base, "n%d%s" % (i, opt))
+        os.makedirs(os.path.join(root, "work", "sub"))
+        os.makedirs(os.path.join(root, "real", "deep"))
+        os.symlink("../real/deep", os.path.join(root, "work", "link"))
+        open(os.path.join(root, "work", "h.h"), "w").write("__begin_publish\nextern int v;\nint f(int a);\n__end_publish\n")
+        name = spell % fname
+        wd = os.path.join(root, "work")
+        want = os.path.join(os.path.realpath(os.path.join(wd, os.path.dirname(name))), fname)
+        argv = ["-module", "m", "-library", "l", opt, name, "h.h"]
+        r = run.run_tool("interrogate", argv, cwd=wd, timeout=60)
+        written = [os.path.join(dp, f) for dp, dn, fs in os.walk(root) for f in fs if f == fname]
+        return name, opt, cls, r.rc, want, sorted(written)
+    n = 0
+    for name, opt, cls, rc, want, written in run.pmap(one, items):
+        n += 1
+        if rc != 0 or written != [want]:
+            ctx.violation("interrogate %s %s: the operating system resolves the name to %s, the file was written to %s (exit %s)" % (
+                opt, name, want, written, rc), dict(option=opt, name=name, expected=want, written=written, rc=rc), classes=cls)
+    return n
+
+
+# ---------------------------------------------------------------------------------------------
 # Part 5: path normalisation
 def replay_paths(ctx, recs):
     ld = build.libdir()
@@ -777,7 +814,7 @@ def run_check(ctx):
             chains.append(r)
         else:
             onces.append(r)
-    if len(lookups) < 90000 or len(onces) < 300 or len(owns) != 216 or len(chains) < 39000:
+    if len(lookups) < 90000 or len(onces) < 300 or len(owns) != 288 or len(chains) < 39000:
         raise MachineryError("IncludeSearch dump too small: %d lookup cases, %d once-only histories, %d ownership cases, "
                              "%d chains" % (len(lookups), len(onces), len(owns), len(chains)))
     chains.sort(key=lambda r: json.dumps(r, sort_keys=True))
@@ -819,7 +856,7 @@ def run_check(ctx):
     n_w, ev_w = replay_own(ctx, owns)
     csel = select_chains(chains, tier)
     n_c, ev_c = replay_chains(ctx, csel)
-    n_y = replay_cycles(ctx)
+    n_y = replay_cycles(ctx) + replay_output_names(ctx)
     n_p, nt_p = replay_paths(ctx, paths)
     ctx.cov["evaluations"] += n_l + n_pf + n_o + n_p + n_w + n_c + n_y
     ctx.cov["traces_validated_against_impl"] += n_l + n_pf + n_o + n_p + n_w + n_c + n_y
